@@ -15,6 +15,7 @@ From SV Require Import Model.Kang.
 From SV Require Import Model.Visibility.
 From SV Require Import Model.Directivity.
 From SV Require Import Model.Stokes.
+From SV Require Import Model.Object.
 Require Extraction.
 From Coq Require Import ExtrOcamlBasic.
 Extraction Language OCaml.
@@ -30,4 +31,5 @@ Extraction "model.ml"
   visible_all check_point2patch check_patch2patch unit_of metrics_w frame_dir_n frame_dir lookup
   nearest_freq dir_index freq_index dirfac source_dirfac recv_dirfac sample_pts sample_conn
   load_stokes_entries newton_cotes_4th stokes_integration stokes_nocut coincidence_check
-  universal_branch patch2patch_ff ff_full.
+  universal_branch patch2patch_ff ff_full
+  ostep otrace orun init restore oeq to_dict ocheck get all_fields dict_fields.
